@@ -442,3 +442,17 @@ Proof.
   destruct (script_roundtrip ops bs d [] Hs Hat ltac:(now rewrite Hrem) Hraw) as (d' & R & M).
   rewrite (runs_run_dops _ _ _ _ R). destruct M as (_ & M2 & _). now rewrite M2.
 Qed.
+
+Theorem encode_ok_size ops bs : encode ops = EncOk bs -> len bs <= MAX_REQUEST_SIZE.
+Proof.
+  unfold encode. destruct (run_prep ops 0) as [e|[n ops']] eqn:E; [discriminate|].
+  destruct ((n <? 0) || (MAX_REQUEST_SIZE <? n)) eqn:En; [discriminate|].
+  apply orb_false_iff in En as (_ & En). apply Z.ltb_ge in En.
+  destruct (prep_real ops _ _ _ E) as (bs' & Es & Hn & Hr). rewrite (Hr []). cbn [app].
+  replace (n <? len bs') with false by (symmetry; apply Z.ltb_ge; lia).
+  replace (n - len bs') with 0 by lia. cbn [Z.to_nat zeros]. rewrite app_nil_r. intros [= <-]. lia.
+Qed.
+
+Lemma spec_bytes_cons p rest : spec_bytes (ECons p rest) =
+  match real_prim p, spec_bytes rest with inl e, _ => inl e | _, inl e => inl e | inr a, inr b => inr (a ++ b) end.
+Proof. reflexivity. Qed.
